@@ -4,7 +4,7 @@ import ast
 from .. import cfg as cfgmod
 from ..core import Undecided, node_text
 from ..idioms import increment_of, is_false, is_name, is_true, negated
-from ..model import call_name, dotted, enclosing_func, is_none, names_in, walk_no_nested
+from ..model import call_name, const_value as const_value_, dotted, enclosing_func, is_none, names_in, walk_no_nested
 from ..snippet import alpha_equal, contains_stmts, contains_expr
 
 NORMAL = lambda a, b, lab: lab not in ('exc', 'raise', 'assert')  # noqa: E731
@@ -604,14 +604,45 @@ def rule_rd_comment(cx, rep, port):
         cp = [n for n in walk_no_nested(init) if isinstance(n, ast.Assign) and dotted(n.targets[0]) == 'self.comment_prefix']
         rep.decide(len(cp) == 1 and isinstance(cp[0].value, ast.IfExp), 'empty prefix', cp[0] if cp else init, 'an empty comment prefix is treated as none', 'an empty comment prefix is not normalised to None: every line would be a comment')
     else:
+        from .. import pathsem
         fd = p.func('rbql_csv', 'CSVRecordIterator.process_record_line_simple')
-        first = fd.body[0]
-        ok = isinstance(first, ast.If) and isinstance(first.body[0], ast.Return) and any(isinstance(x, ast.Call) and isinstance(x.func, ast.Attribute) and x.func.attr == 'startsWith' for x in ast.walk(first.test)) and isinstance(first.test, ast.BoolOp) and isinstance(first.test.op, ast.And)
-        rep.decide(ok, 'comment skip', first, 'comment lines are skipped before the record counter moves', 'comment-prefixed lines are not skipped before process_record_line')
+        line = fd.args.args[1].arg
+        ps = pathsem.paths(fd)
+        if ps is None:
+            rep.undecided('comment skip', fd, 'process_record_line_simple is not summarisable as paths')
+        else:
+            verdict, seen = True, 0
+            for P in (True, False):
+                for S in (True, False):
+                    def leaf(e, P=P, S=S):
+                        if dotted(e) == 'self.comment_prefix':
+                            return P
+                        if isinstance(e, ast.Compare) and len(e.ops) == 1 and dotted(e.left) == 'self.comment_prefix' and is_none(e.comparators[0]):
+                            return (not P) if isinstance(e.ops[0], (ast.Is, ast.Eq)) else P
+                        if isinstance(e, ast.Call) and isinstance(e.func, ast.Attribute) and e.func.attr in ('startsWith', 'startswith') and is_name(e.func.value, line) and e.args and dotted(e.args[0]) == 'self.comment_prefix':
+                            return S
+                        return None
+                    for q in ps:
+                        if not pathsem.consistent(q, leaf):
+                            continue
+                        seen += 1
+                        processed = any(isinstance(c, ast.Call) and call_name(c) == 'self.process_record_line' for c in q.calls)
+                        if processed == (P and S):
+                            verdict = False
+            rep.decide(verdict and seen >= 4, 'comment skip', fd, 'a line is processed as a record iff it is not a comment line (prefix configured and the line starts with it)', 'comment-prefixed lines are not skipped before process_record_line (or ordinary lines are)')
         agg = p.func('csv_utils', 'MultilineRecordAggregator.add_line')
-        cm = [n for n in walk_no_nested(agg) if isinstance(n, ast.If) and any(isinstance(x, ast.Call) and isinstance(x.func, ast.Attribute) and x.func.attr == 'startsWith' for x in ast.walk(n.test))]
-        ok2 = bool(cm) and 'len(self.rfc_line_buffer) == 0' in node_text(cm[0].test, 400)
-        rep.decide(ok2, 'rfc comment skip', cm[0] if cm else agg, 'in quoted_rfc a comment is recognised only outside a multi-line record', 'in quoted_rfc a comment prefix inside a multi-line record is treated as a comment')
+        aps = pathsem.paths(agg)
+        if aps is None:
+            rep.undecided('rfc comment skip', agg, 'add_line is not summarisable as paths')
+        else:
+            marks = [q for q in aps if any(dotted(t_) == 'self.has_comment_line' and is_true(v_) for t_, v_ in q.stores)]
+            ok2 = bool(marks)
+            for q in marks:
+                ats = pathsem.atoms(q.conds)
+                empty = any(pol and isinstance(a_, ast.Compare) and len(a_.ops) == 1 and isinstance(a_.ops[0], ast.Eq) and isinstance(a_.left, ast.Call) and dotted(a_.left.func) == 'len' and dotted(a_.left.args[0]) == 'self.rfc_line_buffer' and const_value_(a_.comparators[0]) == 0 for a_, pol in ats)
+                starts = any(pol and isinstance(a_, ast.Call) and isinstance(a_.func, ast.Attribute) and a_.func.attr in ('startsWith', 'startswith') for a_, pol in ats)
+                ok2 = ok2 and empty and starts
+            rep.decide(ok2, 'rfc comment skip', agg, 'in quoted_rfc a comment is recognised only outside a multi-line record', 'in quoted_rfc a comment prefix inside a multi-line record is treated as a comment')
 
 
 def _comment_escape_path(g, src, dst, line):
@@ -725,13 +756,45 @@ def rule_rd_rfc(cx, rep, port):
             rep.undecided('quote parity', fd, 'has_full_record definition not found')
             return
         txt = node_text(full[0].value, 400)
-        want = '(not has_unbalanced_double_quote and len(self.rfc_line_buffer) == 1 or (has_unbalanced_double_quote and len(self.rfc_line_buffer) > 1)'
-        v = full[0].value
-        ok = isinstance(v, ast.BoolOp) and isinstance(v.op, ast.Or) and len(v.values) == 2 and all(isinstance(x, ast.BoolOp) and isinstance(x.op, ast.And) for x in v.values)
-        if ok:
-            a, b = v.values
-            ok = negated(a.values[0]) is not None and node_text(a.values[1]) == 'len(self.rfc_line_buffer) == 1' and isinstance(b.values[0], ast.Name) and node_text(b.values[1]) == 'len(self.rfc_line_buffer) > 1'
-        rep.decide(ok, 'quote parity', full[0], 'complete iff (balanced and single line) or (unbalanced continuation line)', 'record completion test `{}` is not "(balanced single line) or (unbalanced continuation line)"'.format(txt))
+        # truth table of the completion test over (U = odd number of quotes in this line, F = this is the first line of the record);
+        # lengths of the line buffer are interpreted at the place where they are read: before the push 0 / >= 1, after it 1 / >= 2
+        pushes = [c for c in walk_no_nested(fd) if isinstance(c, ast.Call) and isinstance(c.func, ast.Attribute) and c.func.attr in ('push', 'append') and dotted(c.func.value) == 'self.rfc_line_buffer']
+        push_pos = (pushes[0].lineno, pushes[0].col_offset) if len(pushes) == 1 else None
+
+        def ev(e, U, F, at):
+            if isinstance(e, ast.BoolOp):
+                vals = [ev(v_, U, F, at) for v_ in e.values]
+                if any(v_ is None for v_ in vals):
+                    return None
+                return all(vals) if isinstance(e.op, ast.And) else any(vals)
+            if isinstance(e, ast.UnaryOp) and isinstance(e.op, ast.Not):
+                r_ = ev(e.operand, U, F, at)
+                return None if r_ is None else not r_
+            if isinstance(e, ast.Name):
+                ds = [n for n in walk_no_nested(fd) if isinstance(n, ast.Assign) and is_name(n.targets[0], e.id)]
+                if len(ds) == 1:
+                    if isinstance(ds[0].value, ast.Call) and isinstance(ds[0].value.func, ast.Attribute) and ds[0].value.func.attr in ('match', 'matchAll'):
+                        return True     # null guard of the match list: with no quote at all the count is even anyway
+                    return ev(ds[0].value, U, F, (ds[0].lineno, ds[0].col_offset))
+                return None
+            t_ = node_text(e, 200).replace(' ', '')
+            if '%2==1' in t_:
+                return U
+            if '%2==0' in t_:
+                return not U
+            if isinstance(e, ast.Compare) and len(e.ops) == 1 and isinstance(e.left, ast.Call) and dotted(e.left.func) == 'len' and dotted(e.left.args[0]) == 'self.rfc_line_buffer' and isinstance(e.comparators[0], ast.Constant) and push_pos is not None:
+                after = at > push_pos
+                n_ = (1 if F else 2) if after else (0 if F else 1)
+                k_ = e.comparators[0].value
+                op = e.ops[0]
+                return {ast.Eq: n_ == k_, ast.NotEq: n_ != k_, ast.Gt: n_ > k_, ast.GtE: n_ >= k_, ast.Lt: n_ < k_, ast.LtE: n_ <= k_}.get(type(op))
+            return None
+        rows = [(U, F, ev(full[0].value, U, F, (full[0].lineno, full[0].col_offset))) for U in (True, False) for F in (True, False)]
+        if any(r_[2] is None for r_ in rows):
+            rep.undecided('quote parity', full[0], 'record completion test `{}` not evaluable'.format(txt))
+        else:
+            ok = all(r_[2] == ((not r_[0] and r_[1]) or (r_[0] and not r_[1])) for r_ in rows)
+            rep.decide(ok, 'quote parity', full[0], 'complete iff (balanced and single line) or (unbalanced continuation line)', 'record completion test `{}` is not "(balanced single line) or (unbalanced continuation line)"'.format(txt))
         par = [n for n in walk_no_nested(fd) if isinstance(n, ast.Assign) and is_name(n.targets[0], 'has_unbalanced_double_quote')]
         okp = len(par) == 1 and '% 2 == 1' in node_text(par[0].value)
         rep.decide(okp, 'parity computation', par[0] if par else fd, 'odd number of double quotes', 'quote parity is not computed as count % 2 == 1')
